@@ -106,3 +106,7 @@ Definition chk_cover (fr : ffr) (c : cref) (sample_size : Z) (idxs : list Z) (ex
 (** diagnosis *)
 Definition show_rows (o : option ffr) : option (list (list float)) :=
   match o with Some fr => Some (rows_of fr) | None => None end.
+
+(** the attribute [_columns] left on the instance by a call on [fr] ([exp]: observed value) *)
+Definition chk_state (fr : ffr) (exp : option (list string)) : bool :=
+  opt_eqb (list_eqb String.eqb) (fst (preprocess (A := float) None fr)) exp.
